@@ -33,6 +33,8 @@ def run(tier, seed):
                    cfgs=cfgs if tier == "quick" else ALL_CFGS, exception_is_failure=True, timeout_is_failure=True, rule="distinct top-level token type sequences")
     lines_universe(rep, "vf.checks:block_contracts", tier, "the seven leaf block rules (real calls during parse)", "every precondition (WF1-5, range) and postcondition of their contracts, evaluated natively on every real call",
                    cfgs=["commonmark", "js-default", "cm-code"], rule="distinct token-stream signatures")
+    lines_universe(rep, "vf.checks:container_contracts", tier, "blockquote, list_block and the seven leaf rules (real calls during parse)", "every precondition (WF, CONS, dispatch guard, bsCount >= 0) and postcondition of their contracts, evaluated natively on every real call - nested calls included",
+                   cfgs=["commonmark", "js-default"], rule="distinct token-stream signatures")
     inline_universe(rep, "vf.checks:no_exception", tier, "MarkdownIt.render/renderInline", "no exception, no hang", cfgs=["commonmark", "cm+typo", "js-default"],
                     exception_is_failure=True, timeout_is_failure=True, quick_k=2, thorough_k=3)
     from .c17 import add_cons
